@@ -157,13 +157,22 @@ def diagonalize_form(bilinear_form,
     eigs, U = eigh(bilinear_form)
     Uinv = conjugate(U.swapaxes(-1, -2))
 
-    Dinv = construct_diagonal(np.sqrt(np.abs(eigs)))
-    D = zeros(Dinv.shape, like=Dinv)
-
-    close_to_zero = np.isclose(Dinv.astype('float64'), 0.)
-    np.divide(1, Dinv, out=D, where=~close_to_zero)
-
     n_eigs = eigs.astype('float64')
+
+    # a degenerate form cannot be brought to a diagonal form with
+    # entries +-1 only. Leave the directions in its kernel unscaled
+    # (instead of multiplying them by 0), so that W is still
+    # invertible and W^T B W = diag(+-1, ..., 0, ...)
+    null = (np.abs(n_eigs) <=
+            1e-12 * np.max(np.abs(n_eigs), axis=-1, keepdims=True,
+                           initial=0.))
+    n_eigs[null] = 0.
+
+    scale = np.sqrt(np.abs(eigs))
+    scale[null] = number(1, like=scale)
+
+    Dinv = construct_diagonal(scale)
+    D = construct_diagonal(1 / scale)
 
     W = U @ D
 
